@@ -145,6 +145,9 @@ def check_execution(iso, strat, order, feed, grass, want=("C06", "C07")):
                     meat = by_species[a.animal_species].get("meat")
                     if meat is not None and abs(outflow - meat.transfer_population[m]) > 1e-9 * max(1.0, outflow):
                         bad(v6, "milk_to_meat_transfer", a, m, "retiring+male calves %r != added to meat herd %r" % (outflow, meat.transfer_population[m]))
+                elif by_species[a.animal_species].get("milk") is None and abs(tin) > 1e-9 * scale:
+                    # nothing can be handed over to a herd whose species has no dairy herd (animals would come from nowhere)
+                    bad(v6, "milk_to_meat_transfer", a, m, "%r head transferred into %s although no dairy herd of species %s exists" % (tin, a.animal_type, a.animal_species))
             for size in used:
                 if used[size] > cap[size] * (1 + 1e-9) + 1e-9:
                     bad(v6, "slaughter_hours_within_capacity", None, m, "%s class uses %r hours > capacity %r" % (size, used[size], cap[size]))
